@@ -211,7 +211,7 @@ chain = FunctionSpec(
            'for#1': Loop(inv=_ch_inner, kinds={'previousSegmentIndexes': LIST(OPT(INT)), 'cumulatedScore': LIST(EXT)}),
            'while#0': Loop(inv=_ch_back, kinds={'previousSegmentIndexes': LIST(OPT(INT))})},
     ghost={'ridx': lambda C: C._e.fresh_list(INT, 'ridx', n=z3.IntVal(0)), 'tot': lambda C: z3.RealVal(0), 'b0': lambda C: z3.IntVal(0)},
-    ghost_at={'assign#10': _ch_init_back, 'call#6': _ch_insert},
+    ghost_at={'assign#10': _ch_init_back, 'call:insert#0': _ch_insert},
     inline={'initialOrderingKey'},
     serves=('C14', 'C01'),
     note="dynamic programme over the pre-ordered non-empty segments: Bellman invariants on extended reals; the returned chain is a strictly "
